@@ -31,7 +31,11 @@ for d in sorted(glob.glob(os.path.join(V, "seeded", "*"))):
             outcomes.append("inconclusive (%s)" % ", ".join(inc) if inc else "inconclusive")
     if not ran:
         ran, outcomes = ["-"], [meta.get("detected_by") or "not run: no harness encodes this behaviour (see the per-property notes in section 6)"]
-    rows.append("| `%s` | %s | %s — %s | %s | %s |" % (name, meta["property"], meta["site"], meta["what_it_breaks_and_needs_to_manifest"], "<br>".join(ran), "<br>".join(outcomes)))
+    what = re.sub(r"\s+", " ", meta.get("what_it_breaks_and_needs_to_manifest", "")).replace("|", "/")
+    if len(what) > 420:
+        what = what[:417] + "..."
+    site = meta.get("site", "(see notes.md in the seed directory)")
+    rows.append("| `%s` | %s | %s — %s | %s | %s |" % (name, meta["property"], site, what, "<br>".join(ran), "<br>".join(outcomes)))
 p = os.path.join(V, "DESIGN.md")
 s = open(p).read()
 s = s[:s.index(BEGIN) + len(BEGIN)] + "\n" + "\n".join(rows) + "\n" + s[s.index(END):]
